@@ -55,6 +55,7 @@ Inductive sres := SoWait | SoRet | SoPanic (p : option pval).
 Record rest_case := mkRest
   { (* input *)
     rc_rec : bool;               (* a RecoverHandler sits between the timeout middleware and the work *)
+    rc_recout : bool;            (* a RecoverHandler sits IN FRONT of the timeout middleware (observed chain order) *)
     rc_fl : bool;                (* the real writer is an http.Flusher *)
     rc_h0 : hdrs; rc_script : list act; rc_dur : Z; rc_rq : reqkind;
     rc_parent : option Z;        (* caller's deadline (ns from the start), if any *)
@@ -203,6 +204,20 @@ Definition is_timeout (c : rest_case) : bool :=
   | None => false
   end.
 
+(* Recover in front of the timeout middleware: the re-raised panic of the work ([spec_panic]) is
+   answered by the RecoverHandler's reply on top of what the handler had flushed itself before the
+   panic (nothing, without Flush): still all-or-nothing — the panic outcome, recovered outside *)
+Definition recovered_outside (c : rest_case) : bool :=
+  rc_recout c &&
+  existsb (fun acts =>
+             match spec_panic (rc_fl c) false acts with
+             | Some _ =>
+               view_eqb (obs_view c)
+                        (rw_view (apply_reply recover_reply
+                                    (committed (rc_fl c) (rc_h0 c) (rec_cut [] (rc_fl c) false acts))))
+             | None => false
+             end) (candidates c).
+
 Definition untouched (c : rest_case) : bool :=
   if rc_fl c && has_flush (rc_script c) then true     (* the flushed prefix is out: see is_timeout *)
   else (rc_status c =? 0) && zs_eqb (rc_body c) [] && infos_eqb (rc_infos c) [].
@@ -210,7 +225,7 @@ Definition untouched (c : rest_case) : bool :=
 Definition all_or_nothing_ok (c : rest_case) : bool :=
   match rc_sout c with
   | SoWait => false                          (* ServeHTTP must return once the handler has *)
-  | SoRet => is_complete c || is_timeout c
+  | SoRet => is_complete c || is_timeout c || recovered_outside c
   | SoPanic (Some p) =>
     (* behind a RecoverHandler no panic of the work reaches the serving goroutine *)
     negb (rc_rec c) &&
@@ -263,7 +278,9 @@ Definition outer_view_ok (c : rest_case) : bool :=
     if existsb (fun e => match e with ES BTimeout => true | _ => false end) (rc_sched c)
     then rc_code c =? timeout_code k
     else rc_code c =? rc_status c
-  | SoRet, None => rc_code c =? rc_status c
+  | SoRet, None =>
+    (* Recover in front: the record is the reply's status even when the handler's own went out by a Flush *)
+    (rc_code c =? rc_status c) || (recovered_outside c && negb (is_complete c))
   | _, _ => true
   end.
 
@@ -394,9 +411,9 @@ Fixpoint forall_idx {A} (f : nat -> A -> bool) (i : nat) (l : list A) : bool :=
 (* request i seen as a single-request case: its own script, its own events, its own
    observations — everything the other requests did is simply absent.  [dur] and
    [script] are what the configuration gives this request. *)
-Definition seq_as_rest (rec : bool) (dur : Z) (script : list act) (sched : list (nat * ev)) (hobs : list (nat * ares))
+Definition seq_as_rest (rec outside : bool) (dur : Z) (script : list act) (sched : list (nat * ev)) (hobs : list (nat * ares))
            (i : nat) (r : seq_req) : rest_case :=
-  mkRest rec (sr_fl r) (sr_h0 r) script dur (classify (sr_hdrs r)) (sr_parent r) (sr_dmode r)
+  mkRest (rec && negb (outside && sr_wrapped r)) (rec && outside && sr_wrapped r) (sr_fl r) (sr_h0 r) script dur (classify (sr_hdrs r)) (sr_parent r) (sr_dmode r)
          (sr_wrapped r) (proj i sched) []
          (map snd (filter (fun o => Nat.eqb (fst o) i) hobs))
          (sr_sout r) (sr_status r) (sr_snap r) (sr_live r) (sr_body r) (sr_infos r) (sr_flushes r) (sr_code r)
@@ -406,17 +423,29 @@ Definition comp_sout (c : comp) : sres :=
   match c with CW s => sout_of_sst (sst s) | CX s => sout_of_hst (xhst s) end.
 
 (* [conf r] = (timeout handed to TimeoutHandler for r's route, the route's handler script) *)
-Definition gseq_agrees (rec : bool) (conf : seq_req -> Z * list act) (reqs : list seq_req)
+(* what the client and the caller of the chain see of a component in the end *)
+Definition comp_final (outside : bool) (c : comp) : rwriter * sres :=
+  match c with
+  | CW s =>
+    match sst s with
+    | SPanicRet _ => if outside then (apply_reply recover_reply (rw s), SoRet) else (rw s, sout_of_sst (sst s))
+    | _ => (rw s, sout_of_sst (sst s))
+    end
+  | CX s => (xrw s, sout_of_hst (xhst s))
+  end.
+
+Definition gseq_agrees (rec outside : bool) (conf : seq_req -> Z * list act) (reqs : list seq_req)
            (sched : list (nat * ev)) (hobs : list (nat * ares)) : bool :=
   let wrap r := wrapped (fst (conf r)) (classify (sr_hdrs r)) in
   let comps := map (fun r => cinit (wrap r) (mkReq (sr_fl r) (sr_h0 r) (snd (conf r)))) reqs in
-  match rcmrun_strict recover_reply rec comps sched with
+  match rcmrun_strict recover_reply (rec && negb outside) rec comps sched with
   | Some (cs, obs) =>
     list_eqb iares_eqb obs hobs &&
     forall_idx (fun i cr =>
                   let c := fst cr in let r := snd cr in
-                  let rc := seq_as_rest rec (fst (conf r)) (snd (conf r)) sched hobs i r in
-                  rw_eqb (comp_rw c) (obs_rw rc) && sres_eqb (comp_sout c) (sr_sout r) &&
+                  let rc := seq_as_rest rec outside (fst (conf r)) (snd (conf r)) sched hobs i r in
+                  let fin := comp_final (rec && outside) c in
+                  rw_eqb (fst fin) (obs_rw rc) && sres_eqb (snd fin) (sr_sout r) &&
                   Bool.eqb (wrap r) (sr_wrapped r) &&
                   dl_agrees (rest_deadline (rc_dur rc) (rc_rq rc) (rc_parent rc) (rc_t0 rc))
                             (rest_deadline (rc_dur rc) (rc_rq rc) (rc_parent rc) (rc_t1 rc)) (rc_dl rc) &&
@@ -430,15 +459,15 @@ Definition gseq_agrees (rec : bool) (conf : seq_req -> Z * list act) (reqs : lis
    an ambiguous request (see sr_amb) is judged as what the implementation took it for *)
 Definition judged_as (r : seq_req) (c : rest_case) : rest_case :=
   if sr_amb r then
-    mkRest (rc_rec c) (rc_fl c) (rc_h0 c) (rc_script c) (rc_dur c) (if sr_wrapped r then RqPlain else RqWebsocket)
+    mkRest (rc_rec c) (rc_recout c) (rc_fl c) (rc_h0 c) (rc_script c) (rc_dur c) (if sr_wrapped r then RqPlain else RqWebsocket)
            (rc_parent c) (rc_dmode c) (rc_wrapped c) (rc_sched c) (rc_alts c) (rc_hobs c) (rc_sout c)
            (rc_status c) (rc_snap c) (rc_live c) (rc_body c) (rc_infos c) (rc_flushes c) (rc_code c) (rc_extra c)
            (rc_late c) (rc_foreign c) (rc_dl c) (rc_t0 c) (rc_t1 c) (rc_retatd c)
   else c.
 
-Definition gseq_prop_ok (rec : bool) (conf : seq_req -> Z * list act) (reqs : list seq_req)
+Definition gseq_prop_ok (rec outside : bool) (conf : seq_req -> Z * list act) (reqs : list seq_req)
            (sched : list (nat * ev)) (hobs : list (nat * ares)) : bool :=
-  forall_idx (fun i r => rest_prop_ok (judged_as r (seq_as_rest rec (fst (conf r)) (snd (conf r)) sched hobs i r))) O reqs.
+  forall_idx (fun i r => rest_prop_ok (judged_as r (seq_as_rest rec outside (fst (conf r)) (snd (conf r)) sched hobs i r))) O reqs.
 
 Record seq_case := mkSeq
   { sq_rec : bool;                     (* Timeout -> Recover -> work *)
@@ -451,16 +480,18 @@ Record seq_case := mkSeq
 Definition seq_conf (c : seq_case) (r : seq_req) : Z * list act := (sq_dur c, sr_script r).
 
 Definition seq_agrees (c : seq_case) : bool :=
-  gseq_agrees (sq_rec c) (seq_conf c) (sq_reqs c) (sq_sched c) (sq_hobs c).
+  gseq_agrees (sq_rec c) false (seq_conf c) (sq_reqs c) (sq_sched c) (sq_hobs c).
 
 Definition seq_prop_ok (c : seq_case) : bool :=
-  gseq_prop_ok (sq_rec c) (seq_conf c) (sq_reqs c) (sq_sched c) (sq_hobs c) && negb (sq_retatd c =? 0).
+  gseq_prop_ok (sq_rec c) false (seq_conf c) (sq_reqs c) (sq_sched c) (sq_hobs c) && negb (sq_retatd c =? 0).
 
 (* ------------------------------------------------------------------ *)
 (* a real rest.Server: route groups with options, several requests to its routes *)
 
 Record srv_case := mkSrv
   { sv_rec : bool;                     (* conf.Middlewares.Recover *)
+    sv_recout : bool;                  (* OBSERVED on the tree: the engine puts the RecoverHandler in front of the
+                                          timeout middleware instead of behind it *)
     sv_conf_ms : Z; sv_mw : bool;
     sv_groups : list (list ropt);
     sv_reqs : list seq_req;
@@ -480,13 +511,13 @@ Definition srv_agrees (c : srv_case) : bool :=
   let t := eng_timeout (sv_conf_ms c) (map route_conf (sv_groups c)) in
   (sv_eng c =? t) && (sv_read c =? srv_read_timeout t) && (sv_write c =? srv_write_timeout t) &&
   forallb (fun r => Nat.ltb (sr_group r) (length (sv_groups c))) (sv_reqs c) &&
-  gseq_agrees (sv_rec c) (srv_conf c) (sv_reqs c) (sv_sched c) (sv_hobs c).
+  gseq_agrees (sv_rec c) (sv_recout c) (srv_conf c) (sv_reqs c) (sv_sched c) (sv_hobs c).
 
 (* per route: deadline = min(caller's, now + chosen timeout), all-or-nothing, nothing
    after the timeout; header-exempt requests are not wrapped, keep the caller's
    deadline and are not cut; no timeout configured: nothing demanded *)
 Definition srv_prop_ok (c : srv_case) : bool :=
-  gseq_prop_ok (sv_rec c) (srv_conf c) (sv_reqs c) (sv_sched c) (sv_hobs c) && negb (sv_retatd c =? 0).
+  gseq_prop_ok (sv_rec c) (sv_recout c) (srv_conf c) (sv_reqs c) (sv_sched c) (sv_hobs c) && negb (sv_retatd c =? 0).
 
 (* ------------------------------------------------------------------ *)
 (* sequences of calls through ONE interceptor instance (fam 0) / fx (fam 1) *)
